@@ -49,6 +49,40 @@ def legs? (s : String) : Option (List (List PS)) :=
   if s == "-" then some [] else
   (s.splitOn "/").mapM (fun leg => (leg.splitOn ".").mapM ps?)
 
+/-! ### recording builder (C11) -/
+
+def hashStep (h : Nat) (c : Char) : Nat := (h * 131 + c.toNat) % 1000000007
+
+/-- one frame as text: title, then `@` and the vertex list if the frame carries a graph, `^` if `init` -/
+def showFrame (f : MorphRec.Frame) : String :=
+  f.title ++ (match f.graph with | some vs => "@" ++ showPSList vs | none => "") ++ (if f.init then "^" else "")
+
+/-- digest of a frame sequence: count and a polynomial hash of the frame texts -/
+def framesDigest (fs : List MorphRec.Frame) : String :=
+  let h := fs.foldl (fun h f => hashStep ((showFrame f).foldl hashStep h) '\n') 7
+  s!"{fs.length}:{h}"
+
+/-- vertex list of the last frame that carries a graph -/
+def lastGraph (fs : List MorphRec.Frame) : Option (List PS) :=
+  fs.reverse.findSome? (fun f => f.graph)
+
+/-- per reduction (= per connected component): `<sorted vertices of the last graph frame>@<count>:<hash>`;
+reductions sorted by this text (the order of equal-sized components is a networkx detail) -/
+def showRecs (rs : List RecR) : String :=
+  let ss := (rs.map (fun r =>
+    (match lastGraph r.frames with | some vs => showSortedPS vs | none => "none") ++ "@" ++ framesDigest r.frames)).mergeSort strLeS
+  if ss.isEmpty then "-" else String.intercalate ";" ss
+
+/-- `RecordGraph.get_graph(get_size() - 1)`: sorted vertices of the last graph-carrying frame of the whole record -/
+def showFinal (gens : List PS) (rs : List RecR) : String :=
+  match lastBuilt gens rs with
+  | none => "none"
+  | some r => match lastGraph r.frames with | some vs => showSortedPS vs | none => "none"
+
+def showFrameLog (rs : List RecR) : String :=
+  let ss := (rs.map (fun r => String.intercalate "/" (r.frames.map (fun f => (showFrame f).replace " " "_")))).mergeSort strLeS
+  if ss.isEmpty then "-" else String.intercalate "||" ss
+
 def handle (line : String) : Option String :=
   match line.splitOn " " with
   | ["classify", gs] => do
@@ -62,6 +96,24 @@ def handle (line : String) : Option String :=
       let complete := ms.all (fun m => m.complete)
       return s!"alg={alg} dim={dim} deps={showSortedPS (dependentsOf ms)} verts={showSortedPS (verticesOf ms)} morphs={showMorphs ms}" ++
         (if complete then "" else " INCOMPLETE") ++ s!" #lost={lost} #tags={String.intercalate "" (ms.map (fun m => String.intercalate "" m.tags))}")
+  | ["classifyrec", gs] => do
+    let gs ← psList? gs
+    return showExcept id (do
+      let c ← Graph.collInit gs
+      let rs ← classifyRec c
+      let ms := rs.map (·.morph)
+      let alg := showExcept showAlgebra (algebraOfMorphs ms)
+      let dim := showExcept toString (dlaDimOfMorphs ms)
+      let lost := (ms.map (fun m => m.unappended.length)).foldl (· + ·) 0
+      let complete := ms.all (fun m => m.complete)
+      return s!"alg={alg} dim={dim} deps={showSortedPS (dependentsOf ms)} verts={showSortedPS (verticesOf ms)} morphs={showMorphs ms} last={showRecs rs} final={showFinal c rs}" ++
+        (if complete then "" else " INCOMPLETE") ++ s!" #lost={lost} #tags={String.intercalate "" (ms.map (fun m => String.intercalate "" m.tags))}")
+  | ["recframes", gs] => do
+    let gs ← psList? gs
+    return showExcept id (do
+      let c ← Graph.collInit gs
+      let rs ← classifyRec c
+      return showFrameLog rs)
   | ["closure", gs] => do
     let gs ← psList? gs
     return showExcept id (do
